@@ -139,4 +139,43 @@ theorem lapdate_syntax (c : Civil) (hv : ValidCivil c) :
   simp at hmon'
   simp [isLapDate, splitOnChar, n1, n2, n3, n4, n5, n6, n7, n8, n9, n10, k1, k2, k3, td, ty, th, tm, ts, hmon']
 
+theorem intercalate_cons_cons (sep a b : List Char) (r : List (List Char)) :
+    List.intercalate sep (a :: b :: r) = a ++ sep ++ List.intercalate sep (b :: r) := by
+  simp [List.intercalate, List.intersperse]
+
+/-- Tags: joining comma-free tags with ',' and splitting at ',' gives the tags back -/
+theorem tags_split_join (ts : List (List Char)) (hne : ts ≠ []) (h : ∀ t ∈ ts, ∀ x ∈ t, x ≠ ',') :
+    splitOnChar ',' (List.intercalate [','] ts) = ts := by
+  induction ts with
+  | nil => exact absurd rfl hne
+  | cons t rest ih =>
+    cases rest with
+    | nil =>
+      simp only [List.intercalate, List.intersperse, List.flatten_cons, List.flatten_nil, List.append_nil]
+      exact splitOnChar_none ',' t (h t (by simp))
+    | cons t2 r =>
+      rw [intercalate_cons_cons]
+      simp only [List.append_assoc, List.cons_append, List.nil_append]
+      rw [splitOnChar_append ',' t _ (h t (by simp)), ih (by simp) (fun u hu => h u (by simp [hu]))]
+
+
+theorem mapM_str (ts : List (List Char)) (f : V → Outcome (List Char)) (hf : ∀ x, f (V.str x) = .ok x) :
+    (ts.map V.str).mapM f = .ok ts := by
+  induction ts with
+  | nil => rfl
+  | cons t r ih => simp [List.mapM_cons, ih, hf, bind, Outcome.bind, pure]
+
+theorem natChars_zero : natChars 0 = ['0'] := by decide
+theorem natChars_one : natChars 1 = ['1'] := by decide
+
+theorem lit_tags_m : Spec.schema.lit "Tags.MarshalXML" 0 = some "," := by decide +kernel
+theorem lit_tags_u : Spec.schema.lit "Tags.UnmarshalXML" 0 = some "," := by decide +kernel
+theorem lit_pos_m : Spec.schema.lit "Positioning.MarshalXML" 0 = some "%d,%d,%d" := by decide +kernel
+theorem lit_pos_u : Spec.schema.lit "Positioning.UnmarshalXML" 0 = some "%d,%d,%t" := by decide +kernel
+theorem fmt_pos_m : parseFormat "%d,%d,%d".toList = some [.d 0, .lit ',', .d 0, .lit ',', .d 0] := by decide
+theorem fmt_pos_u : parseFormat "%d,%d,%t".toList = some [.d 0, .lit ',', .d 0, .lit ',', .t] := by decide
+theorem lit_thr_m : Spec.schema.lit "Threshold.MarshalXML" 0 = some "%d%%" := by decide +kernel
+theorem lit_thr_u : Spec.schema.lit "Threshold.UnmarshalXML" 0 = some "%" := by decide +kernel
+theorem fmt_thr_m : parseFormat "%d%%".toList = some [.d 0, .lit '%'] := by decide
+
 end TrackVerif.LT.Spec
